@@ -16,7 +16,7 @@ type C04Case struct {
 
 func genHistoryWorld(g gen.G) m.WorldM {
 	o := gen.WorldOpts{
-		Schema:   gen.SchemaOpts{MaxDepth: 2},
+		Schema:   gen.SchemaOpts{MaxDepth: 2, DepBoost: g.Chance(60)},
 		Cfg:      gen.CfgOpts{Violations: 6, Layout: false, HalfTyped: 12},
 		MaxPaths: 2, MaxFiles: 2, Edits: 1, Faults: true,
 	}
@@ -55,6 +55,22 @@ func worldSnapshot(w *world.World) string {
 	return oracle.Snapshot(&a)
 }
 
+// worldSnapshotNoRefs is worldSnapshot without the collected targets and
+// origins (which the caller itself replaces when it stores a collection result).
+func worldSnapshotNoRefs(w *world.World) string {
+	type all struct {
+		Ctxs []interface{}
+		DCtx interface{}
+	}
+	a := all{DCtx: &w.DCtx}
+	for _, p := range w.M.Paths {
+		pc := *w.Reader.Ctx(p.Path)
+		pc.ReferenceTargets, pc.ReferenceOrigins = nil, nil
+		a.Ctxs = append(a.Ctxs, &pc)
+	}
+	return oracle.Snapshot(&a)
+}
+
 func usesMergedSchema(w m.WorldM) bool {
 	var walk func(b *m.BodyM) bool
 	walk = func(b *m.BodyM) bool {
@@ -81,9 +97,21 @@ func usesMergedSchema(w m.WorldM) bool {
 
 func checkC04(c C04Case) Result {
 	var r Result
-	w, pi := SafeBuild(func() *world.World { return world.Build(c.World) })
+	// the collectors are the first operations ever run on the schema: snapshot before them
+	var pristine, collected string
+	w, pi := SafeBuild(func() *world.World {
+		w := world.Build(c.World)
+		pristine = worldSnapshotNoRefs(w)
+		return w
+	})
 	if pi != nil {
 		r.Exclude("library-panic(C01)")
+		return r
+	}
+	collected = worldSnapshotNoRefs(w)
+	r.Evals++
+	if collected != pristine {
+		r.Fail("mutation:collect", "collecting reference targets and origins modified caller-supplied data:\n before: %s\n after:  %s", around(pristine, collected), around(collected, pristine))
 		return r
 	}
 	d := w.Decoder()
@@ -111,6 +139,7 @@ func checkC04(c C04Case) Result {
 	if errs > 0 {
 		r.Class("with-error-queries")
 	}
+	depClasses(&r, c.World, w)
 	r.NonTrivial = usesMergedSchema(c.World) && errs > 0
 	return r
 }
